@@ -54,8 +54,10 @@ def oracle_fn(t, bitwise):
     return f'pub fn expect_clone(x: &Ty) -> Ty {{\n    match x {{\n{arms}    }}\n}}\n'
 
 
-def emit(modname, cfgid, shape, copy=False, sp=None, pre='', t_override=None):
+def emit(modname, cfgid, shape, copy=False, sp=None, pre='', t_override=None, xf=None):
     t = t_override or build(shape, copy)
+    if xf:
+        xf(t)
     has_method = any(f.code in 'mkv' for v in t.variants for f in v.fields)
     bitwise = copy and not has_method
     body = pre + render_type(t, sp) + any_fn(t) + variant_index_fn(t) + oracle_fn(t, bitwise)
